@@ -564,7 +564,7 @@ func (ex *Explorer) concreteReplay(v *Violation) bool {
 	if fn == nil {
 		return false
 	}
-	if v.Kind == "race" {
+	if v.Kind == "race" || v.Kind == "lockorder" {
 		return true // observed on a concrete schedule; data values play no role
 	}
 	rex := NewExplorer(ex.p, ex.cfg)
